@@ -343,17 +343,24 @@ PROPS["C19"] = dict(
 PROPS["C12"] = dict(
     title="Connections are admitted only for authenticated, expected, unique peers",
     level="exploration",
-    technique="runtime monitoring: admission oracle over adversarial handshake transcripts on real localhost sessions; reference pool diff + invariant probes under concurrency",
+    technique="runtime monitoring: admission oracle over adversarial handshake transcripts on real localhost sessions; reference pool diff + invariant probes under concurrency; served-interval monitor (ping probes) over hostile connect/duplicate/close schedules against a real node",
     explanation="(handshake) Real localhost sessions (TCP + noise + preface through the verif facade): the victim runs the real gossip / consensus handshake::inbound or ::outbound "
     "while the peer, written in the harness and owning every key but judged by ground truth, speaks one transcript: honest; a frame recorded on an earlier session replayed; a man in the "
     "middle that terminates noise towards the honest dialler and forwards its frame verbatim; a signature by another key over the right session id; the right key over a flipped / "
     "truncated / extended session id; wrong genesis; truncated and empty frames; outbound: a genuine handshake of another identity than the dialled one. Any admission other than the "
     "honest one is a violation, and the honest one must be admitted as the right identity. Membership of the validator network is enforced by the pool (limit 0), covered below. "
     "(pool) PoolWatch (through the verif facade): random insert/remove sequences are diffed against a set + quota reference after every operation, the non-configured quota is "
-    "never exceeded and not leaked (after all removes exactly `limit` fresh identities fit); 16 concurrent tasks on few keys with the invariants probed after every operation.",
-    assumptions=["held on the generated transcripts / sequences only"],
-    stages=[dict(name="pool", flavour="release", args={"mode": "pool"}, **NET), dict(name="handshake", flavour="release", args={"mode": "handshake"}, **NET)],
-    floors={"quick": {"honest_admissions": 1000, "adversarial_transcripts_refused": 8000, "inbound_Gossip_relayed-by-mitm": 300, "inbound_Consensus_replayed-from-other-session": 300, "outbound_Gossip_other-identity": 300, "pool_inserts_accepted": 20000, "pool_inserts_refused": 20000, "quota_leak_probes": 3000, "pool_concurrent_rounds": 30},
+    "never exceeded and not leaked (after all removes exactly `limit` fresh identities fit); 16 concurrent tasks on few keys with the invariants probed after every operation. "
+    "(node) A real node (testonly::Instance: the production Network runner with its listener, preface, handshakes, both pools and RPC services) is attacked by raw peers holding 2-5 gossip "
+    "identities (some configured as static peers) and 2-4 validator identities (committee members and outsiders) in a random schedule of connect / duplicate connect / close / pause / probe; "
+    "every kept connection is probed with the ping RPC and is certainly served during [first successful response, last successful request]. Upper bounds only, hence sound under any timing: "
+    "two connections of one identity on one network are never served at the same time, connections of non-configured identities served at one instant never exceed dynamic_inbound_limit, an "
+    "outsider key is never served on the validator network.",
+    assumptions=["held on the generated transcripts / sequences only", "node stage: real sockets and the real clock; a case that hits its 120 s wall-clock watchdog is inconclusive, never a verdict"],
+    stages=[dict(name="pool", flavour="release", args={"mode": "pool"}, **NET), dict(name="handshake", flavour="release", args={"mode": "handshake"}, **NET),
+            dict(name="node-admission", flavour="release", args={"mode": "node"}, **NET)],
+    floors={"quick": {"honest_admissions": 1000, "adversarial_transcripts_refused": 8000, "inbound_Gossip_relayed-by-mitm": 300, "inbound_Consensus_replayed-from-other-session": 300, "outbound_Gossip_other-identity": 300, "pool_inserts_accepted": 20000, "pool_inserts_refused": 20000, "quota_leak_probes": 3000, "pool_concurrent_rounds": 30,
+                      "node_cases": 100, "gossip_connections_served": 100, "validator_connections_served": 40, "repeat_connections_of_an_identity": 200, "outsider_validator_connections_attempted": 40},
             "thorough": {"pool_inserts_accepted": 500000}},
 )
 
